@@ -269,7 +269,7 @@ def _run_fit(case, ctx):
     if order == 0 and not close(float(cum[-1]), float(numpy.sum(raw_w)), 1e-9, 1e-12):
         ctx.violation(key + "/total-volume", "the total cumulative volume is not the sum of the fitted weights", got=float(cum[-1]), expected=float(numpy.sum(raw_w)))
     if r.random() < 0.05:
-        ctx.sample({"kernel": case["kernel"], "order": order, "weights": case["weights"], "npoints": len(p), "max_dev_rel": dev / scale, "nonzero_true": int(numpy.count_nonzero(w)), "nonzero_fitted": int(numpy.count_nonzero(raw_w > 1e-9))})
+        ctx.sample({"kernel": case["kernel"], "order": order, "weights": case["weights"], "npoints": len(p), "max_dev_rel": (dev / scale) if scale else 0.0, "nonzero_true": int(numpy.count_nonzero(w)), "nonzero_fitted": int(numpy.count_nonzero(raw_w > 1e-9))})
 
 
 def _run_limits(case, ctx):
